@@ -67,7 +67,7 @@ SUSPECTED_DEFECTS = [
 ]
 
 ALPHA = ["<", ">", "&", '"', "'", "a", " "]
-ALPHA_T = ALPHA + ["/", ":"]
+ALPHA_T = ALPHA + ["/"]
 SAFE_FRAG = "<br>"
 _BAD_AMP = re.compile(r"&(?!(?:amp|lt|gt|quot|#34|#39);)")
 _BAD_AMP_I = re.compile(r"&(?!(?:amp|lt|gt|quot|#34|#39);)", re.I)
@@ -312,13 +312,14 @@ GROUPS = list(G)
 
 HELPERS = {
     "inc.html": "«[{{ u }}:{{ lv }}:{{ lv ~ u }}]»",
-    "lib.html": "«{% macro lm(x, y='d') %}[{{ x }}:{{ y }}]{% endmacro %}{% macro lc() %}[{{ caller() }}]{% endmacro %}"
-                "{% set lv = '<\\'&\">' %}{% set lb %}{{ lv }}{% endset %}top»",
+    # (an autoescape region is a scope: names defined inside are not exported, so the marks sit inside the macro / set bodies)
+    "lib.html": "{% macro lm(x, y='d') %}«[{{ x }}:{{ y }}]»{% endmacro %}{% macro lc() %}«[{{ caller() }}]»{% endmacro %}"
+                "{% set lv = '<\\'&\">' %}{% set lb %}«{{ lv }}»{% endset %}«top»",
     "base.html": "{% block b %}«[{{ u }}]»{% endblock %}|{% block c %}«{{ self.b() }}»{% endblock %}",
     # the .txt helpers: same text; under select_autoescape they are *not* autoescaped, their own top-level output is parenthesised
     "inc.txt": "«({{ u }}:{{ lv }})»",
-    "lib.txt": "«{% macro lm(x) %}[{{ x }}]{% endmacro %}{% macro lc() %}[{{ caller() }}]{% endmacro %}"
-               "{% set lv = '<\\'&\">' %}{% set lb %}{{ lv }}{% endset %}»",
+    "lib.txt": "{% macro lm(x) %}«[{{ x }}]»{% endmacro %}{% macro lc() %}«[{{ caller() }}]»{% endmacro %}"
+               "{% set lv = '<\\'&\">' %}{% set lb %}«{{ lv }}»{% endset %}",
 }
 
 
@@ -508,7 +509,8 @@ def bodies_ok(codes: List[int], b1: bool, n: int) -> bool:
         rendered = 0
         for body in bodies[lo:hi]:
             rendered += check_body(w, body, s, b1, n, False)
-            rendered += check_body(w, body, s, b1, n, True)
+            if len(s) <= P.get("litlen", 1):
+                rendered += check_body(w, body, s, b1, n, True)
         return rendered > 0
 
 
@@ -545,18 +547,20 @@ def select_ok(name: str, dflt: bool) -> bool:
     return got is want and fn(None) is (True if P.get("mixedcase") else bool(P.get("dfs")))
 
 
-NAME_PARTS = ["", "a", ".", "/", ".html", ".HTML", ".hTm", ".xml", ".txt", ".TXT", ".j2", "html", "xml.", ".htmlx", ".ht", "ml", " ", ".Xml", ".tx", "t", "İ", ".HTMK"]
+NAME_PRE = ["", "a", "a.html", ".txt/", "x.xml.", "A.J2.", " ", "\u0130"]
+NAME_SUF = ["", "a", ".", ".html", ".HTML", ".hTmL", ".htm", ".HTM", ".xml", ".Xml", ".txt", ".TXT", ".j2", ".J2", "html", ".htmlx", ".ht", ".xm", ".html ",
+            ".html.", ".txt.html", ".html.txt", ".j2.xml", ".htmk", ".HTMK", "\u2024html", ".\uff48\uff54\uff4d\uff4c", "/html", ".x.t.x.t", ".TxT"]
 
 
-def select_table_ok(p1: int, p2: int, p3: int, dfs: bool, dflt: bool) -> bool:
+def select_table_ok(p1: int, p2: int, dfs: bool, dflt: bool) -> bool:
     """
-    pre: 0 <= p1 < len(NAME_PARTS) and 0 <= p2 < len(NAME_PARTS) and 0 <= p3 < len(NAME_PARTS)
+    pre: 0 <= p1 < len(NAME_PRE) and 0 <= p2 < len(NAME_SUF)
     post: _
     """
-    p1, p2, p3 = pick(p1, len(NAME_PARTS)), pick(p2, len(NAME_PARTS)), pick(p3, len(NAME_PARTS))
+    p1, p2 = pick(p1, len(NAME_PRE)), pick(p2, len(NAME_SUF))
     dfs, dflt = pickb(dfs), pickb(dflt)
     with NoTracing():
-        name = NAME_PARTS[p1] + NAME_PARTS[p2] + NAME_PARTS[p3]
+        name = NAME_PRE[p1] + NAME_SUF[p2]
         low = name.lower()
         en, dis = _ends(low, EXT_EN), _ends(low, EXT_DIS)
         want = True if en else False if dis else dflt
@@ -579,7 +583,8 @@ def conditions(tier, seed):
     thorough = tier == "thorough"
     to = 300 if thorough else 60
     L = 3 if thorough else 2
-    na = len(ALPHA_T) if thorough else len(ALPHA)
+    LL = 2 if thorough else 1      # literal variants (one compilation per string and body) use shorter strings
+    na = len(ALPHA)
     out = []
     # wrappers x groups.  quick: every group under the static and the runtime-decided (non-escaping environment) wrappers, the
     # structural/operator groups under every wrapper; thorough: full cross product
@@ -589,25 +594,27 @@ def conditions(tier, seed):
             if not thorough and wn not in full and g not in ("ops", "struct", "args"):
                 continue
             flags = g == "args" or (g in ("ops", "struct") and (thorough or wn in full))
-            size = 400 if not thorough else 120
+            size = 400 if not thorough else 200
             for part in _parts(len(G[g]), size):
                 nm = f"{g}[{wn}" + (f",{part[0]}-{part[1]}" if len(G[g]) > size else "") + "]"
                 wit = [[[0, 5], True, 1], [[3, 2], True, 1], [[4, 1, 6][:L], True, 1], [[2], True, 1]]
                 if flags:
                     wit = [[[0, 5], False, 0], [[3, 2], True, 2], [[4, 1, 6][:L], False, 1], [[2], True, 1]]
-                out.append(Cond(nm, "bodies_ok", mode="B", param=dict(wrapper=wn, group=g, part=list(part), maxlen=L, nalpha=na, flags=flags), timeout=to,
+                out.append(Cond(nm, "bodies_ok", mode="B", param=dict(wrapper=wn, group=g, part=list(part), maxlen=L, litlen=LL, nalpha=na, flags=flags), timeout=to,
                                 witnesses=wit,
-                                bounds=f"data/literal strings of <= {L} symbols from {ALPHA_T[:na]!r}"
+                                bounds=f"data strings of <= {L} / literals of <= {LL} symbols from {ALPHA_T[:na]!r}"
                                        + (" x bool b1 x int n in 0..2" if flags else "") + f"; {part[1] - part[0]} bodies of group '{g}' x subject as context "
                                        f"variable / as template string literal; autoescape: {w.doc}"))
     for dfs in (False, True):
-        out.append(Cond(f"select_autoescape[str,dfs={dfs}]", "select_ok", mode="A", param=dict(dfs=dfs, namelen=8 if thorough else 6), timeout=to,
+        out.append(Cond(f"select_autoescape[str,dfs={dfs}]", "select_ok", mode="S", param=dict(dfs=dfs, namelen=8 if thorough else 6), timeout=120 if thorough else 15,
                         witnesses=[["a.html", False], ["A.HTM", False], ["x.txt", True], ["html", True], ["", False], ["a.xml.j2", True]],
-                        bounds=f"symbolic template name (str, len <= {8 if thorough else 6}) x default; enabled {EXT_EN}, disabled {EXT_DIS}, default_for_string={dfs}"))
-    out.append(Cond("select_autoescape[str,mixedcase-config]", "select_ok", mode="A", param=dict(mixedcase=True, namelen=8 if thorough else 6), timeout=to,
+                        bounds=f"symbolic template name (str, len <= {8 if thorough else 6}) x default; enabled {EXT_EN}, disabled {EXT_DIS}, default_for_string={dfs}; "
+                               "search only: str.lower realises the name"))
+    out.append(Cond("select_autoescape[str,mixedcase-config]", "select_ok", mode="S", param=dict(mixedcase=True, namelen=8 if thorough else 6), timeout=120 if thorough else 15,
                     witnesses=[["a.html", False], ["A.HTM", False], ["x.txt", True], ["b.J2", False]],
-                    bounds="symbolic template name; extensions configured in mixed case / with leading dots"))
+                    bounds="symbolic template name; extensions configured in mixed case / with leading dots; search only"))
     out.append(Cond("select_autoescape[name-table]", "select_table_ok", mode="B", timeout=to,
-                    witnesses=[[1, 4, 0, True, False], [4, 8, 0, False, True], [1, 5, 8, True, True], [0, 0, 0, False, False], [1, 21, 0, True, False]],
-                    bounds=f"names = 3 parts from {NAME_PARTS!r} x default_for_string x default; selector function and Environment.get_template/from_string"))
+                    witnesses=[[1, 3, True, False], [2, 10, False, True], [1, 5, True, True], [0, 0, False, False], [1, 24, True, False], [3, 20, False, False]],
+                    bounds=f"names = prefix from {NAME_PRE!r} + suffix from {NAME_SUF!r} x default_for_string x default; selector function and "
+                           "Environment.get_template/from_string"))
     return out
